@@ -929,3 +929,108 @@ def rotate_primed_loops(fn: FuncNode, inplace: bool = False) -> FuncNode:
     fn.body = walk_block(fn.body)
     ast.fix_missing_locations(fn)
     return fn
+
+
+# ---------------------------------------------------------------------------
+# round 13 normal forms
+
+_BUILTIN_SELF_MATCH = {'bool', 'bytearray', 'bytes', 'dict', 'float', 'frozenset', 'int', 'list', 'set', 'str', 'tuple'}
+
+
+def _pattern_test(p: ast.AST, subj: ast.AST) -> T.Optional[T.Tuple[T.Optional[ast.AST], T.List[str]]]:
+    """(test expression or None when irrefutable, names bound to the whole subject) for the closed set of patterns that are
+    plain type / value tests of the subject: `Cls()`, `builtin(name)`, `A() | B()`, a value, a singleton, `_`, a capture, `P as name`.
+    None: the pattern destructures the subject (left to the engine, which gives up on it)."""
+    def s() -> ast.AST:
+        return copy.deepcopy(subj)
+    if isinstance(p, ast.MatchAs):
+        if p.pattern is None:
+            return None, ([p.name] if p.name else [])
+        inner = _pattern_test(p.pattern, subj)
+        if inner is None:
+            return None
+        return inner[0], inner[1] + ([p.name] if p.name else [])
+    if isinstance(p, ast.MatchClass) and not p.kwd_patterns:
+        binds: T.List[str] = []
+        if p.patterns:
+            ok = len(p.patterns) == 1 and isinstance(p.cls, ast.Name) and p.cls.id in _BUILTIN_SELF_MATCH \
+                and isinstance(p.patterns[0], ast.MatchAs) and p.patterns[0].pattern is None
+            if not ok:
+                return None
+            if p.patterns[0].name:
+                binds.append(p.patterns[0].name)
+        return ast.Call(func=ast.Name(id='isinstance', ctx=ast.Load()), args=[s(), copy.deepcopy(p.cls)], keywords=[]), binds
+    if isinstance(p, ast.MatchValue):
+        return ast.Compare(left=s(), ops=[ast.Eq()], comparators=[copy.deepcopy(p.value)]), []
+    if isinstance(p, ast.MatchSingleton):
+        return ast.Compare(left=s(), ops=[ast.Is()], comparators=[ast.Constant(value=p.value)]), []
+    if isinstance(p, ast.MatchOr):
+        alts = [_pattern_test(q, subj) for q in p.patterns]
+        if any(a is None or a[1] or a[0] is None for a in alts):
+            return None
+        tests = [a[0] for a in alts]            # type: ignore[index]
+        if all(isinstance(t, ast.Call) and isinstance(t.func, ast.Name) and t.func.id == 'isinstance' for t in tests):
+            classes: T.List[ast.AST] = []
+            for t in tests:
+                c = t.args[1]                   # type: ignore[attr-defined]
+                classes += list(c.elts) if isinstance(c, ast.Tuple) else [c]
+            return ast.Call(func=ast.Name(id='isinstance', ctx=ast.Load()), args=[s(), ast.Tuple(elts=classes, ctx=ast.Load())], keywords=[]), []
+        return ast.BoolOp(op=ast.Or(), values=tests), []
+    return None
+
+
+def desugar_match(fn: FuncNode, inplace: bool = False) -> FuncNode:
+    """`match <name>:` whose cases are plain type / value tests of the subject is read as the if/elif chain it abbreviates
+    (`case Cls():` = isinstance, `case A() | B():` = isinstance with a tuple, `case 'v':` = equality, `case None:` = identity,
+    `case _:` = else, `case P if g:` = P and g, a capture = an assignment at the head of the arm).  A match whose subject is
+    not a plain name or one of whose patterns destructures the subject is left as it is."""
+    if not any(isinstance(n, ast.Match) for n in ast.walk(fn)):
+        return fn
+    fn = fn if inplace else copy.deepcopy(fn)
+
+    def conv(m: ast.stmt) -> T.Optional[T.List[ast.stmt]]:
+        if not isinstance(m, ast.Match) or not isinstance(m.subject, ast.Name):
+            return None
+        arms: T.List[T.Tuple[T.Optional[ast.AST], T.List[ast.stmt]]] = []
+        for case in m.cases:
+            r = _pattern_test(case.pattern, m.subject)
+            if r is None:
+                return None
+            test, binds = r
+            if case.guard is not None:
+                if binds:
+                    return None            # the guard may read the capture
+                test = copy.deepcopy(case.guard) if test is None else ast.BoolOp(op=ast.And(), values=[test, copy.deepcopy(case.guard)])
+            pre: T.List[ast.stmt] = [ast.Assign(targets=[ast.Name(id=b, ctx=ast.Store())], value=copy.deepcopy(m.subject), lineno=case.pattern.lineno)
+                                     for b in binds if b != m.subject.id]
+            arms.append((test, pre + list(case.body)))
+            if test is None:
+                break                      # irrefutable: later cases are unreachable (a syntax error anyway)
+        chain: T.List[ast.stmt] = []
+        for test, body in reversed(arms):
+            if test is None:
+                chain = body
+            else:
+                chain = [ast.copy_location(ast.If(test=test, body=body, orelse=chain), m)]
+        return chain or [ast.copy_location(ast.Pass(), m)]
+
+    def walk_block(stmts: T.List[ast.stmt]) -> T.List[ast.stmt]:
+        res: T.List[ast.stmt] = []
+        for st in stmts:
+            if isinstance(st, (ast.FunctionDef, ast.AsyncFunctionDef, ast.ClassDef)):
+                res.append(st)
+                continue
+            for field in ('body', 'orelse', 'finalbody'):
+                sub = getattr(st, field, None)
+                if isinstance(sub, list) and sub and isinstance(sub[0], ast.stmt):
+                    setattr(st, field, walk_block(sub))
+            for hd in getattr(st, 'handlers', []):
+                hd.body = walk_block(hd.body)
+            for case in getattr(st, 'cases', []):
+                case.body = walk_block(case.body)
+            rep = conv(st)
+            res.extend(rep if rep is not None else [st])
+        return res
+    fn.body = walk_block(fn.body)
+    ast.fix_missing_locations(fn)
+    return fn
